@@ -223,6 +223,7 @@ func (d *decompressor) nextBlockAt(off int64, rs io.ReadSeeker) *decompressor {
 
 	d.lazyBlock()
 
+	verifPoint("reader.head", off, 0)
 	d.acquireHead()
 	defer d.releaseHead()
 
@@ -256,6 +257,7 @@ func (d *decompressor) nextBlockAt(off int64, rs io.ReadSeeker) *decompressor {
 
 	// Decompress data into the decompressor's Block.
 	go func() {
+		verifPoint("reader.inflate", d.blk.Base(), 0)
 		d.err = d.blk.readFrom(&d.gz)
 		d.wg.Done()
 	}()
@@ -426,8 +428,10 @@ func NewReader(r io.Reader, rd int) (*Reader, error) {
 					default:
 					}
 				}
+				verifPoint("reader.worker.next", next, 0)
 				dec.nextBlockAt(next, nil)
 				next = dec.blk.NextBase()
+				verifPoint("reader.worker.push", dec.blk.Base(), next)
 				bg.working <- dec
 			}
 		}()
@@ -457,6 +461,7 @@ func (bg *Reader) Seek(off Offset) error {
 			if bg.dec != nil {
 				dec = bg.dec
 			} else {
+				verifPoint("reader.seek.take", off.File, 0)
 				select {
 				case dec = <-bg.waiting:
 				case dec = <-bg.working:
@@ -467,6 +472,7 @@ func (bg *Reader) Seek(off Offset) error {
 							// This decompressor had the block we
 							// wanted.
 							bg.current = blk
+							verifPoint("reader.seek.control", off.File, 1)
 							bg.control <- bg.current.NextBase()
 							bg.waiting <- dec
 							dec = nil
@@ -488,6 +494,7 @@ func (bg *Reader) Seek(off Offset) error {
 					case <-bg.control:
 					default:
 					}
+					verifPoint("reader.seek.control", off.File, 2)
 					bg.control <- bg.current.NextBase()
 					bg.waiting <- dec
 				}
@@ -628,6 +635,7 @@ func (bg *Reader) nextBlock() error {
 	} else {
 		var ok bool
 		for i := 0; i < cap(bg.working); i++ {
+			verifPoint("reader.consume", base, int64(len(bg.working)))
 			dec := <-bg.working
 			bg.current, err = dec.wait()
 			bg.waiting <- dec
